@@ -184,8 +184,42 @@ def w_sweep(arg):
     return acc.res()
 
 
+def w_indep(arg):
+    """joint conditions with the fields a position decode must ignore: for positions on and next to CPR grid corners (raw
+    fields 0, 1, multiples of 4096, all ones ...) and a few ordinary ones, the pair is decoded under every type code of the
+    group x altitude field corners x T x surveillance status x single-antenna flag x DF17/DF18 on each frame; the answer
+    must be the absolute one (judge) - and therefore the same for all of them."""
+    lats = arg
+    acc = Acc()
+    k = 0
+    for lat in lats:
+        for lon in (Fr(0), Fr(9), Fr(-72), Fr(1797, 10), Fr(13, 2) + Fr(1, 4096)):
+            e0, e1 = C.encode(lat, lon, 0), C.encode(lat, lon, 1)
+            if C.near_transition(e0["rlat"], C.EPS) or C.near_transition(e1["rlat"], C.EPS) or C.NL(e0["rlat"]) != C.NL(e1["rlat"]):
+                continue
+            for tc in list(range(9, 19)) + [20, 21, 22]:
+                for alt in (0, 1, 0x800, 0xFFF, 0xC38):
+                    for tbit in (0, 1):
+                        k += 1
+                        ss, saf = k % 4, (k // 4) % 2
+                        df0, df1 = 17 + k % 2, 17 + (k // 2) % 2
+                        m0 = F.es(C.me_airborne(tc, alt, 0, e0["yz"], e0["xz"], ss=ss, saf=saf, t=tbit), 0x4840D6, ca_for(df0, k), df0)
+                        m1 = F.es(C.me_airborne(tc, alt, 1, e1["yz"], e1["xz"], ss=(ss + 1) % 4, saf=saf, t=tbit), 0x4840D6, ca_for(df1, k), df1)
+                        for newer_even in (True, False):
+                            exp = expected(e0, e1, newer_even)
+                            if not isinstance(exp, list):
+                                continue
+                            t0, t1 = (10, 9) if newer_even else (9, 10)
+                            acc.n += 1
+                            s = judge(("position" if k % 2 else "airborne_position", m0, m1, t0, t1, exp))
+                            if s:
+                                acc.bad(s + ":joint_with_ignored_fields", {"p": ["position" if k % 2 else "airborne_position", m0, m1, t0, t1, exp]})
+            acc.out.add(("indep", float(lat), float(lon)))
+    return acc.res()
+
+
 def w_any(t):
-    return {"l": w_lats, "s": w_sweep}[t[0]](t[1])
+    return {"l": w_lats, "s": w_sweep, "i": w_indep}[t[0]](t[1])
 
 
 def run(ctx):
@@ -195,6 +229,9 @@ def run(ctx):
     step = 64 if ctx.thorough else 2048
     span = 1 << 16
     tasks += [("s", (lo, min(lo + span, nb + 1), step)) for lo in range(-nb, nb + 1, span)]
+    corner_lats = [Fr(0), Fr(6), Fr(48), Fr(-48), Fr(6 * 4096, 131072) + 42, Fr(360, 59) * 3, Fr(5231, 100), Fr(-3391, 100), Fr(6 * 0x1F000, 131072) + 12,
+                   Fr(6 * 0x1FFFF, 131072) + 18, Fr(6, 131072) + 24, Fr(86), Fr(-865, 10)]
+    tasks += [("i", [la]) for la in corner_lats]
     ctx.pmap(w_any, tasks)
     ctx.cov["latitudes"] = len(lats)
     ctx.cov["lattice_sweep_step"] = step
@@ -204,4 +241,4 @@ def replay(case):
     s = judge(tuple(case["p"]))
     if not s:
         return []
-    return [(s, case), (s + ":with_receiver_location", case)]
+    return [(s, case), (s + ":with_receiver_location", case), (s + ":joint_with_ignored_fields", case)]
